@@ -247,8 +247,11 @@ BasisStates == {[kind |-> "basis", b |-> b, R |-> R] : b \in SymBasis, R \in Bas
 
 \* rejection table: one or two minerals, grain counts 2..3, 1..2 stored snapshots of each kind
 Shape(ph) == {[phase |-> ph, n |-> n, nOri |-> a, nFrac |-> b] : n \in 2..3, a \in 1..2, b \in 1..2}
-RejectStates == UNION {{[kind |-> "reject", asm |-> <<ph>>, shapes |-> <<x>>] : x \in Shape(ph)} : ph \in {"olivine", "enstatite"}}
-                \cup UNION {{[kind |-> "reject", asm |-> a, shapes |-> <<x, y>>] : x \in Shape(o[1]), y \in Shape(o[2])}
+\* the table is quantified over the phase fractions too ("all phase fractions on the simplex" includes its vertices, where
+\* one phase of the assemblage has no volume): Outcome is a function of the shapes alone, whatever the fractions
+RejectPhis == {"interior", "first-only", "second-only", "almost-first-only"}
+RejectStates == UNION {{[kind |-> "reject", asm |-> <<ph>>, phi |-> "one", shapes |-> <<x>>] : x \in Shape(ph)} : ph \in {"olivine", "enstatite"}}
+                \cup UNION {{[kind |-> "reject", asm |-> a, phi |-> f, shapes |-> <<x, y>>] : x \in Shape(o[1]), y \in Shape(o[2]), f \in RejectPhis}
                             : a \in {OlEn, EnOl}, o \in {OlEn, EnOl}}
 
 \* ------------------------------------------------------------------ terms for the generic evaluator
@@ -417,7 +420,7 @@ Emit ==
                                                normalised |-> VolumesNormalised(c),
                                                avg |-> res.avg,
                                                dev |-> IF res.dev = res.avg THEN <<>> ELSE res.dev])>>)
-    [] Done("reject") -> PrintT(<<"REJ", ToJson([asm |-> c.asm, shapes |-> c.shapes, outcome |-> res.outcome,
+    [] Done("reject") -> PrintT(<<"REJ", ToJson([asm |-> c.asm, phi |-> c.phi, shapes |-> c.shapes, outcome |-> res.outcome,
                                                 clause |-> res.clause])>>)
     [] Done("tables") -> PrintT(<<"TABLES", ToJson(Tables)>>)
     [] OTHER -> TRUE
